@@ -150,6 +150,10 @@ type (
 	StmtBegin    struct{}
 	StmtCommit   struct{}
 	StmtRollback struct{}
+	// savepoints (pgx nested transactions)
+	StmtSavepoint  struct{ Name string }
+	StmtRollbackTo struct{ Name string }
+	StmtRelease    struct{ Name string }
 	StmtSet      struct{ Name, Value string }
 	StmtNoop     struct{ Tag string }
 
@@ -383,7 +387,30 @@ func (p *parser) stmt() (Stmt, error) {
 		return StmtCommit{}, nil
 	case "rollback", "abort":
 		p.i++
+		if p.acceptKw("to") {
+			p.acceptKw("savepoint")
+			name, err := p.ident()
+			if err != nil {
+				return nil, err
+			}
+			return StmtRollbackTo{name}, nil
+		}
 		return StmtRollback{}, nil
+	case "savepoint":
+		p.i++
+		name, err := p.ident()
+		if err != nil {
+			return nil, err
+		}
+		return StmtSavepoint{name}, nil
+	case "release":
+		p.i++
+		p.acceptKw("savepoint")
+		name, err := p.ident()
+		if err != nil {
+			return nil, err
+		}
+		return StmtRelease{name}, nil
 	case "set":
 		p.i++
 		name, err := p.ident()
